@@ -182,7 +182,7 @@ def program(w, peaks, bkgs, *, violate=(), loc_val=None, width=None, offset=0, b
     """Program the stubs of the third-party calls (optimiser, chi-square distribution) and the model stand-ins so that every
     candidate (peak, background) fit of the window meets every requirement except those named in `violate`."""
     for pk in peaks:
-        pk.fwhm_value = w.scalar(f'fwhm_{pk.name}', ANG, width if width is not None else (6 if 'peak_too_wide' in violate else (3 if 'peak_too_narrow' in violate else F(9, 2))),
+        pk.fwhm_value = w.scalar(f'fwhm_{pk.name}', ANG, width if width is not None else (6 if 'peak_too_wide' in violate else (3 if 'peak_too_narrow' in violate else F(49, 10))),
                                  positive=True)
     good, poor = (lambda i: 9 + offset + i), (lambda i: 0)  # data points are 10 + offset + i: a small chi-square against a large one
     better = 'background_is_better' in violate
@@ -191,7 +191,8 @@ def program(w, peaks, bkgs, *, violate=(), loc_val=None, width=None, offset=0, b
         for pk in peaks:
             w.f_values[f'{bg.name}+{pk.name}'] = poor if better else good
     w.model.fns['chi2cdf'] = lambda dof, x: F(999, 1000) if 'p_too_small' in violate else F(1, 2)
-    vals = {'peak_loc': (ANG, F(6) if loc_val is None else loc_val), 'peak_amplitude': (CNT, -1 if 'peak_points_down' in violate else 5)}
+    # (a positive amplitude below 1 is still positive)
+    vals = {'peak_loc': (ANG, F(6) if loc_val is None else loc_val), 'peak_amplitude': (CNT, -1 if 'peak_points_down' in violate else F(1, 2))}
     w.model.popt_factory = lambda it, m, p0, w=w: {k: with_variance(w, w.scalar(f'opt_{k}', *vals.get(k, (CNT, 1)))) for k in sorted(p0)}
     if bkg_fit_fails:
         w.model.fit_raises = lambda p0: not any(k.startswith('peak_') for k in (p0 or {}))
@@ -293,7 +294,7 @@ def run(tier: str) -> Run:
                 # (a fitted location outside the window, by more than two steps, is closer to the edge than any point inside)
                 loc_val = X0 + ({'left': F(1, 4), 'right': F(19, 2), 'last point': F(10), 'outside left': F(-3), 'outside right': F(14)}[edge_side] if viol['peak_near_edge'] else F(6))
                 violated = [k for k, v in viol.items() if v]
-                # window width 10, spacing around the centre 2: max width factor 0.5 (-> 5), min width factor 2 (-> 4); fwhm 9/2 meets both
+                # window width 10 (first to last point), spacing around the centre 2: max width factor 0.5 (-> 5), min width factor 2 (-> 4); fwhm 4.9 meets both
                 peak, bkg = steer(w, violate=violated, loc_val=loc_val, bkg_fit_fails=not with_bkg_stats)
                 window = w.model.array(w.it, [w.scalar('wlo', ANG, X0 - 1), w.scalar('whi', ANG, X0 + 100)], 'range')
                 kind, res = fit_through_public(w, repo, data, peaks=peak, bkgs=bkg, window=window,
@@ -309,6 +310,16 @@ def run(tier: str) -> Run:
                     bad2.setdefault('success only when ' + violated[0] + ' is met', {'violated': violated, 'assessment': got, 'peak_location': str(loc_val)})
                 elif violated and got not in violated:
                     bad2.setdefault('reported reason is a violated requirement', {'violated': violated, 'assessment': got})
+    # a peak model without an amplitude parameter cannot point down: nothing violated -> success
+    w = World(repo)
+    data = w.data(9, grid=tuple(100 + g_ for g_ in (0, F(1, 2), 1, F(3, 2), 2, 4, 6, 8, 10)))
+    peak, bkg = steer(w, loc_val=F(106), params=('peak_loc', 'peak_scale'))
+    window = w.model.array(w.it, [w.scalar('wlo', ANG, 99), w.scalar('whi', ANG, 200)], 'range')
+    kind, res = fit_through_public(w, repo, data, peaks=peak, bkgs=bkg, window=window, requirements=requirements(repo, max_peak_width_factor=0.5, min_peak_width_factor=2.0))
+    n2 += 1
+    got = assessment_name(res[0].attrs.get('assessment')) if kind == 'return' and isinstance(res, list) and len(res) == 1 and isinstance(res[0], SObj) else (kind, res)
+    if got != 'success':
+        bad2.setdefault('all requirements met -> success', {'assessment': got, 'peak_model': 'without an amplitude parameter'})
     names = ['never raises', 'all requirements met -> success', 'reported reason is a violated requirement'] + [f'success only when {r_} is met' for r_ in REQUIREMENTS]
     for inst in names:
         hit = next((v for k, v in bad2.items() if k == inst), None)
@@ -526,6 +537,34 @@ def run(tier: str) -> Run:
         ok = got is not None and all(isinstance(got[k], int | float) and abs(got[k] - v) <= 1e-15 for k, v in want_defaults.items())
         r7.check(ok, f'{cname}()', f'src/scippneutron/peaks/_common.py:{cname}', {'defaults': {k: repr(v) for k, v in (got or {}).items()}, 'documented': want_defaults, 'outcome': kind},
                  key=f'defaults:{cname}')
+
+    # ---- R8: model specifications by name (helper-level: applies where the parser exists with today's signature) ------------------------
+    r8 = run.rule('R8', "model names: 'linear' / 'quadratic' are polynomials of degree 1 / 2, 'gaussian' / 'lorentzian' / 'pseudo_voigt' the peak classes; "
+                        'a list gives the models in order; the prefix is applied', 1)
+    from .common import private_helper
+    spec_fi = private_helper(repo, MOD, '_parse_model_spec', ['spec', 'prefix'])
+    if spec_fi is None:
+        r8.ok('model names', {'not_decided': 'no parser helper of the known shape; the classes themselves are C16'}, nontrivial=False)
+    else:
+        w = World(repo)
+        want_names = {'linear': ('PolynomialModel', 1), 'quadratic': ('PolynomialModel', 2), 'gaussian': ('GaussianModel', None),
+                      'lorentzian': ('LorentzianModel', None), 'pseudo_voigt': ('PseudoVoigtModel', None)}
+        probs = []
+        for spec, (cname, degree) in want_names.items():
+            kind, res = w.call(spec_fi, [spec], {'prefix': 'x_'})
+            m = res[0] if kind == 'return' and isinstance(res, tuple | list) and len(res) == 1 else None
+            if not isinstance(m, SObj) or m.cls.name != cname:
+                probs.append(f'{spec!r} gives {m.cls.name if isinstance(m, SObj) else (kind, res)!r}, expected {cname}')
+                continue
+            if degree is not None and w.it.getattr(m, 'degree', None) != degree:
+                probs.append(f'{spec!r} gives a polynomial of degree {w.it.getattr(m, "degree", None)}, expected {degree}')
+            if w.it.getattr(m, 'prefix', None) != 'x_':
+                probs.append(f'{spec!r}: prefix {w.it.getattr(m, "prefix", None)!r}')
+        kind, res = w.call(spec_fi, [['quadratic', 'linear']], {'prefix': 'b_'})
+        if not (kind == 'return' and isinstance(res, tuple | list) and [getattr(getattr(x, 'cls', None), 'name', None) for x in res] == ['PolynomialModel'] * 2
+                and [w.it.getattr(x, 'degree', None) for x in res] == [2, 1]):
+            probs.append(f"['quadratic', 'linear'] gives {res!r}"[:160])
+        r8.check(not probs, 'model names', loc(spec_fi), {'problems': probs[:3]}, key='names')
 
     # ---- R6: remove_peaks ------------------------------------------------------------------------------------------------------
     r6 = run.rule('R6', 'remove_peaks: exactly the peaks of successful results are subtracted inside their windows, from a copy; input untouched', 4)
